@@ -175,6 +175,20 @@ pub fn check_pair(rep: &mut Report, a: (u32, u32), b: (u32, u32), seed: u64) {
     if ops != want_ops {
         bad!("partial_cmp", "[{}] vs [{}]: (<, <=, >, >=) = {:?}, expected {:?}", txt(a), txt(b), ops, want_ops);
     }
+    {
+        use std::hash::{Hash, Hasher};
+        let h = |x: &CharSet| {
+            let mut s = std::collections::hash_map::DefaultHasher::new();
+            x.hash(&mut s);
+            s.finish()
+        };
+        let copy = sa;
+        #[allow(clippy::clone_on_copy)]
+        let cl = sa.clone();
+        if copy != sa || cl != sa || h(&copy) != h(&sa) || (a == b && h(&sa) != h(&sb)) || lohi(&copy) != a {
+            bad!("eq", "[{}]: copy / clone / hash do not behave as values", txt(a));
+        }
+    }
     if (sa == sb) != (a == b) {
         bad!("eq", "[{}] == [{}] is {}", txt(a), txt(b), sa == sb);
     }
